@@ -1,9 +1,10 @@
 (* C06, stated for the definitions generated from the current source of util/inference_util.py
    (_correct_1d, _dual_bootstrap; gen/Gen_C06.v, re-created on every run). *)
 From Coq Require Import List ZArith QArith Reals.
-From RSA Require Import Prelude Vec InferModel.
+From RSA Require Import Prelude Vec InferModel InferProofs.
 From RSAGen Require Import Gen_C06.
 From RSATie Require Import Tie_C06.
+Import ListNotations.
 Open Scope R_scope.
 
 Theorem C06_gen_correct_1d_is_model : forall (v : R) (p r : option nat), ge1 p -> ge1 r ->
@@ -37,6 +38,23 @@ Theorem C06_gen_dual_lower_uncorrected : forall v0 v1 v2 : R, v1 <= v0 -> v2 <= 
   v1 <= Gen_C06.dual_bootstrap ROps v0 v1 v2 None None /\ v2 <= Gen_C06.dual_bootstrap ROps v0 v1 v2 None None.
 Proof. exact gen_dual_uncorrected_bounds. Qed.
 Print Assumptions C06_gen_dual_lower_uncorrected.
+
+(* one-sided t-test against zero, as generated from t_test_0: p = 1 - cdf(evaluation / sqrt(max(variance, eps))) for any
+   distribution function; every p-value in [0,1]; a larger evaluation at equal variance never yields a larger p-value *)
+Theorem C06_gen_t_test_0_is_model : forall (cdf : R -> R) (ev var : list R),
+  Gen_C06.t_test_0 ROps cdf ev var (feps ROps) = map (p_one cdf) (t_zero ROps ev var).
+Proof. exact t_test_0_tie. Qed.
+Print Assumptions C06_gen_t_test_0_is_model.
+
+Theorem C06_gen_t_test_0_range : forall (cdf : R -> R) (ev var : list R), (forall x, 0 <= cdf x <= 1) ->
+  Forall (fun p => 0 <= p <= 1) (Gen_C06.t_test_0 ROps cdf ev var (feps ROps)).
+Proof. exact gen_t_test_0_range. Qed.
+Print Assumptions C06_gen_t_test_0_range.
+
+Theorem C06_gen_t_test_0_monotone : forall (cdf : R -> R) (e1 e2 v : R), (forall x y, x <= y -> cdf x <= cdf y) -> e1 <= e2 ->
+  nth 0 (Gen_C06.t_test_0 ROps cdf [e2] [v] (feps ROps)) 0 <= nth 0 (Gen_C06.t_test_0 ROps cdf [e1] [v] (feps ROps)) 0.
+Proof. exact gen_t_test_0_monotone. Qed.
+Print Assumptions C06_gen_t_test_0_monotone.
 
 (* non-vacuity on the executable instance: n_rdm = 3, n_pattern = 4, (v0, v1, v2) = (10, 3, 4) *)
 Example C06_gen_example :
